@@ -135,7 +135,26 @@ def refinement_guard(ck, facts, R):
         ck.ok(R, "create_refinement_strand:all-delayed-subgoals", "no element-dropping adaptor")
 
 
+def solver_per_revision(ck, facts, R):
+    """Shared by C08 / C10: the tables and caches of a solver are only valid for the program they were computed for.  The built-in
+    rules read struct fields and #[lang] markers straight from the database - data that is in no program clause - so no digest of the
+    clauses can stand for `the program`: the salsa query that creates the solver must be volatile."""
+    from kit import all_returns_pass
+    ck.rule(R, "K3: chalk_integration::query::solver reports an untracked read (salsa: volatile, recomputed in every revision) on every "
+               "path to its return; a solver memoised on a tracked input (the environment, the clauses) survives program edits those "
+               "inputs do not reflect - a changed last field, a removed #[lang] marker - and keeps answering from stale tables")
+    b = need_body(ck, facts, R, "chalk_integration::query::solver")
+    if not b:
+        return
+    vol = b.cfg.call_blocks(("Runtime::report_untracked_read", "report_untracked_read"))
+    if not vol:
+        ck.violation(R, "query::solver:volatile", b.where(), "the solver query is not volatile (no report_untracked_read)")
+    else:
+        all_returns_pass(ck, R, b, [0], vol, "query::solver:volatile-on-every-path")
+
+
 def run(ck, facts, tier):
+    solver_per_revision(ck, facts, "C10.SOLVER-PER-REVISION")
     from shared import fixedpoint as _fpx
     _fpx.loop_exits(ck, facts, "C10.FIXPOINT-EXITS")
     from shared import state
@@ -203,6 +222,17 @@ def run(ck, facts, tier):
         dominated_by_calls(ck, R, sg, SG + "move_to_cache", "Stack::pop", "move_to_cache", "stack.pop(depth)")
         dominated_by_calls(ck, R, sg, SG + "move_to_cache", RC + "solve_new_subgoal", "move_to_cache", "solve_new_subgoal")
         # comparison is really between the minimums' positive link and dfn
+        # ... and on that edge the completed SCC always leaves the search graph: every path to the return passes move_to_cache or
+        # rollback_to - whatever the cache configuration and whether or not the solve was interrupted.  Nodes that stay behind are
+        # found by a later solve and taken for finished members of an SCC still in progress
+        mcb = cfg.call_blocks(SG + "move_to_cache") + cfg.call_blocks(SG + "rollback_to")
+        rets_ = set(cfg.return_blocks())
+        stays = [e for e in ge if rets_ & (cfg.reachable(e[1], (), False, stop=set(mcb)) - set(mcb))]
+        if ge and mcb and not stays:
+            ck.ok(R, "solve_goal:completed-scc-leaves-the-graph", "move_to_cache or rollback_to on every path behind the SCC-head test")
+        else:
+            ck.violation(R, "solve_goal:completed-scc-leaves-the-graph", sg.where(), "a completed SCC head can return without promoting or rolling back "
+                         "its nodes: provisional / interrupted results stay in the search graph for later solves")
         cmp_ok = any(n_.get("k") in ("bin", "call") and (n_.get("op") == "Ge" or callee_matches(n_, "PartialOrd::ge")) and
                      mentions_field(n_, "positive") and "dfn" in expr_vars(n_) for n_ in walk(sg.thir))
         cleared = any(n_.get("k") == "assign" and mentions_field(n_["l"], "stack_depth") and
